@@ -12,7 +12,7 @@ from pyvc.values import *
 from pyvc.tokens import Token, TokV, tok_dec, tok_enc, enc_axioms
 
 TK = "MultiTrackLargeVocabularyNotelikeTokeniser"
-COMPS = ("time", "time_bar", "cap_total", "cap_rem", "trk", "val", "vel")
+COMPS = ("time", "time_bar", "cap_total", "cap_rem", "trk", "val", "vel", "ok")     # ok: 1 while every token so far is a vocabulary token
 
 
 def _tokterm(v):
@@ -43,6 +43,10 @@ def _member(X, st, lst, x):
 def tok_ok(X, st, e):
     selfv = X.ev(e.args[0], st)
     t = _tokterm(X.ev(e.args[1], st))
+    return BoolV(tok_ok_term(X, st, selfv, t))
+
+
+def tok_ok_term(X, st, selfv, t):
     f = lambda name: X.read_field(st, selfv, name)
     steps, values, bins = f("step_sizes"), f("note_values"), f("velocity_bins")
     ft, fv, fw = f("flag_fuse_track").v, f("flag_fuse_value").v, f("flag_fuse_velocity").v
@@ -60,7 +64,7 @@ def tok_ok(X, st, e):
               z3.And(Token.is_vel(t), z3.Not(fw), _member(X, st, bins, Token.vel_v(t))),
               z3.And(Token.is_tsg(t), Token.tsg_d(t) == 8, el(tr, 0) <= Token.tsg_n(t), Token.tsg_n(t) <= el(tr, 1)),
               z3.And(Token.is_note(t), ok_note))
-    return BoolV(r)
+    return r
 
 
 @specfun
@@ -91,9 +95,9 @@ def _fold(X, st, selfv, toks, current=False, init_env=None):
 
     def step(elarr, kk):
         t = tok_dec(elarr[kk])
-        T, TB, CT, CR, TR, VA, VE = (F[c](kk) for c in COMPS)
-        return t, (T, TB, CT, CR, TR, VA, VE)
-    t, (T, TB, CT, CR, TR, VA, VE) = step(el, k)
+        T, TB, CT, CR, TR, VA, VE, OKC = (F[c](kk) for c in COMPS)
+        return t, (T, TB, CT, CR, TR, VA, VE, OKC)
+    t, (T, TB, CT, CR, TR, VA, VE, OKC) = step(el, k)
     capn = _cap(X, st, selfv, Token.tsg_n(t), Token.tsg_d(t))
     isn = Token.is_note(t)
     nxt = {
@@ -105,11 +109,14 @@ def _fold(X, st, selfv, toks, current=False, init_env=None):
         "val": z3.If(Token.is_val(t), Token.val_v(t), z3.If(z3.And(isn, Token.n_fv(t)), Token.n_v(t), VA)),
         "vel": z3.If(Token.is_vel(t), Token.vel_v(t), z3.If(z3.And(isn, Token.n_fw(t)), Token.n_w(t), VE)),
     }
+    st_cfg = st.cp()
+    st_cfg.heap = dict(st.meta.get("old_heap", st.heap))        # the configuration is read in the entry state (it is read-only)
+    nxt["ok"] = z3.If(z3.And(OKC == 1, tok_ok_term(X, st_cfg, selfv, t)), 1, 0)
     if init_env:
-        init = {c: init_env["g_" + c].v for c in COMPS}
+        init = {c: (init_env["g_" + c].v if c != "ok" else z3.IntVal(1)) for c in COMPS}
     else:
         cap0 = _cap(X, st, selfv, z3.IntVal(X.ctx.consts["settings"]["DEFAULT_TIME_SIGNATURE_NUMERATOR"]), z3.IntVal(X.ctx.consts["settings"]["DEFAULT_TIME_SIGNATURE_DENOMINATOR"]))
-        init = {"time": 0, "time_bar": 0, "cap_total": cap0, "cap_rem": cap0, "trk": 0, "val": 24, "vel": 127}
+        init = {"time": 0, "time_bar": 0, "cap_total": cap0, "cap_rem": cap0, "trk": 0, "val": 24, "vel": 127, "ok": 1}
     ax = [F[c](0) == init[c] for c in COMPS]
     ax += [safe_forall([k], z3.Implies(k >= 0, F[c](k + 1) == nxt[c]), patterns=[F[c](k + 1)]) for c in COMPS]
     ax += enc_axioms()
@@ -123,7 +130,11 @@ def _fold(X, st, selfv, toks, current=False, init_env=None):
                 concl = z3.And([Bf[c](n) == A[c](n) for c in COMPS])
                 ax.append(safe_forall([n], z3.Implies(z3.And(n >= 0, hyp), concl), patterns=[A["time"](n)]))
             X.notes.append("L: instances of lemma dfold_ext relate the decoder folds of a token list under construction")
+    def inst(kt):
+        """ground instance of the recursion at index kt: F(kt + 1) = step(F(kt), toks[kt])"""
+        return [z3.Implies(kt >= 0, z3.substitute(F[c](k + 1) == nxt[c], (k, kt))) for c in COMPS]
     cache[key] = (F, ax, el, current)
+    F["__inst__"] = inst
     X.notes.append("spec: dfold = left fold of the property-level decoder step over the token list (recursion axioms)")
     return cache[key][:2]
 
@@ -210,6 +221,15 @@ def dfold_g(X, st, e):
     genv = st.meta.get("old_env", st.env)
     F, ax = _fold(X, st, selfv, toks, current=True, init_env={n: genv[n] for n in genv if n.startswith("g_")})
     _use(st, ax)
+    # E-matching cannot see that F(n + 2) is F((n + 1) + 1): the last few unfoldings below the queried index are given as ground facts
+    ks = z3.simplify(k.v)
+    done = st.meta.setdefault("_dfold_inst", set())
+    for back in (1, 2, 3, 4):
+        kt = z3.simplify(ks - back)
+        tag = (id(F), kt.get_id())
+        if tag not in done:
+            done.add(tag)
+            _use(st, F["__inst__"](kt))
     return Num(F[comp](k.v))
 
 
@@ -219,13 +239,14 @@ def dfold_ext(ctx):
     the bar-capacity function is abstract here, so the lemma covers every configuration)"""
     A, Bq = z3.Array("A", I, I), z3.Array("B", I, I)
     cap = z3.Function("cap", I, I, I)
+    okp = z3.Function("okp", Token, B)
     FA = {c: z3.Function("FA_" + c, I, I) for c in COMPS}
     FB = {c: z3.Function("FB_" + c, I, I) for c in COMPS}
     k, n, b = z3.Ints("k n b")
 
     def axioms(F, arr):
         t = tok_dec(arr[k])
-        T, TB, CT, CR, TR, VA, VE = (F[c](k) for c in COMPS)
+        T, TB, CT, CR, TR, VA, VE, OKC = (F[c](k) for c in COMPS)
         capn = cap(Token.tsg_n(t), Token.tsg_d(t))
         isn = Token.is_note(t)
         nxt = {"time": z3.If(Token.is_bar(t), T + CR, z3.If(Token.is_rst(t), T + Token.rst_v(t), T)),
@@ -234,7 +255,8 @@ def dfold_ext(ctx):
                "cap_rem": z3.If(Token.is_bar(t), CT, z3.If(Token.is_rst(t), CR - Token.rst_v(t), z3.If(z3.And(Token.is_tsg(t), TB <= 0), capn, CR))),
                "trk": z3.If(Token.is_trk(t), Token.trk_t(t), z3.If(z3.And(isn, Token.n_ft(t)), Token.n_t(t), TR)),
                "val": z3.If(Token.is_val(t), Token.val_v(t), z3.If(z3.And(isn, Token.n_fv(t)), Token.n_v(t), VA)),
-               "vel": z3.If(Token.is_vel(t), Token.vel_v(t), z3.If(z3.And(isn, Token.n_fw(t)), Token.n_w(t), VE))}
+               "vel": z3.If(Token.is_vel(t), Token.vel_v(t), z3.If(z3.And(isn, Token.n_fw(t)), Token.n_w(t), VE)),
+               "ok": z3.If(z3.And(OKC == 1, okp(t)), 1, 0)}
         return [z3.ForAll([k], z3.Implies(k >= 0, F[c](k + 1) == nxt[c]), patterns=[F[c](k + 1)]) for c in COMPS]
     j = z3.Int("j")
     ax = axioms(FA, A) + axioms(FB, Bq) + [FA[c](0) == FB[c](0) for c in COMPS] + [z3.ForAll([j], z3.Implies(z3.And(0 <= j, j < n), A[j] == Bq[j]))]
@@ -310,7 +332,7 @@ STATE_IN = (f"sget(state_dict, 'cur_time', 0) == g_time and sget(state_dict, 'cu
             " and (sget(state_dict, 'prv_velocity', -1) == -1 or sget(state_dict, 'prv_velocity', -1) == g_vel)"
             f" and sget(state_dict, 'cur_time_signature_denominator', {D0}) > 0 and sget(state_dict, 'cur_time_signature_numerator', {N0}) >= 0 and g_time >= 0")
 TOKS = "tokens"
-TOK_INV = f"forall(0, len({TOKS}), lambda q: tok_ok(self, {TOKS}[q]))"
+TOK_INV = f"dfold_g(self, {TOKS}, len({TOKS}), 'ok') == 1"
 CLOCK_G = (f"cur_time == dfold_g(self, {TOKS}, len({TOKS}), 'time') and cur_time_bar == dfold_g(self, {TOKS}, len({TOKS}), 'time_bar')"
            f" and cur_bar_capacity_total == dfold_g(self, {TOKS}, len({TOKS}), 'cap_total') and cur_bar_capacity_remaining == dfold_g(self, {TOKS}, len({TOKS}), 'cap_rem')")
 RUN_G = (f"(prv_track == -1 or prv_track == dfold_g(self, {TOKS}, len({TOKS}), 'trk')) and (prv_value == -1 or prv_value == dfold_g(self, {TOKS}, len({TOKS}), 'val'))"
@@ -328,8 +350,8 @@ contract(f"{TK}.tokenise",
          requires=[CFG_TOK, "insert_bar_token", STATE_IN],
          modifies=dict(NOFRAME),
          raises={"NotImplementedError": "not flag_running_time_signature", "TokenisationException": "True"},
-         assume_pre=["Sequence.set_channel", "Sequence.__init__", "Sequence.merge", "Sequence.get_interleaved_message_pairings"],
-         ensures=[("emitted_tokens_in_vocabulary", "forall(0, len(result), lambda q: tok_ok(self, result[q]))")],
+         assume_pre=["Sequence.set_channel", "Sequence.__init__", "Sequence.merge", "Sequence.get_interleaved_message_pairings", "Sequence.abs"],
+         ensures=[("emitted_tokens_in_vocabulary", "dfold_g(self, result, len(result), 'ok') == 1")],
          asserts=[("note_decodes_to_the_note", "prv_track = msg_channel",
                    f"dfold_g(self, {TOKS}, len({TOKS}) - 1, 'time') == msg_time and is_note_tok({TOKS}[len({TOKS}) - 1]) and tok_pitch({TOKS}[len({TOKS}) - 1]) == msg_note"
                    f" and dfold_g(self, {TOKS}, len({TOKS}), 'trk') == msg_channel and dfold_g(self, {TOKS}, len({TOKS}), 'val') == msg_value and dfold_g(self, {TOKS}, len({TOKS}), 'vel') == msg_velocity"),
@@ -353,3 +375,16 @@ contract(f"{TK}.tokenise",
                  ("rest", "buf_rest >= 0 and nxt_rest == min(buf_rest, cur_bar_capacity_remaining)")]),
          },
          props=["C01", "C02", "C03"])
+
+
+@lemma("dfold_ok_means_all", ["C02", "C01"])
+def dfold_ok_means_all(ctx):
+    """the 'ok' component of the fold is 1 after n tokens  iff  every one of the first n tokens satisfies the vocabulary predicate
+    (direction used: ok(n) == 1  ==>  forall q < n. okp(tok[q]));  induction on n"""
+    A = z3.Array("A", I, I)
+    okp = z3.Function("okp", Token, B)
+    OKF = z3.Function("OKF", I, I)
+    k, b, q = z3.Ints("k b q")
+    ax = [OKF(0) == 1, z3.ForAll([k], z3.Implies(k >= 0, OKF(k + 1) == z3.If(z3.And(OKF(k) == 1, okp(tok_dec(A[k]))), 1, 0)), patterns=[OKF(k + 1)])]
+    P = lambda n_: z3.Implies(OKF(n_) == 1, z3.ForAll([q], z3.Implies(z3.And(0 <= q, q < n_), okp(tok_dec(A[q])))))
+    return [("base", ax, P(z3.IntVal(0)), "n = 0"), ("step", ax + [b >= 0, P(b)], P(b + 1), "n -> n+1")]
